@@ -49,6 +49,37 @@ def key_family(name, n, rng=None):
     return ks
 
 
+def _crc32c(data):
+    crc = 0xFFFFFFFF
+    for b in data:
+        crc ^= b
+        for _ in range(8):
+            crc = (crc >> 1) ^ (0x82F63B78 if crc & 1 else 0)
+    return crc ^ 0xFFFFFFFF
+
+
+def _uvarint(x):
+    out = bytearray()
+    while x >= 0x80:
+        out.append((x & 0x7F) | 0x80)
+        x >>= 7
+    out.append(x)
+    return bytes(out)
+
+
+def embedded_record(payload):
+    """a complete, valid RecordIO v4 record (marker, nil flag, lengths, header CRC-32C, payload) as it stands in an uncompressed file"""
+    h = MARKER + b"\x00" + _uvarint(len(payload)) + _uvarint(0)
+    return h + _uvarint(_crc32c(h)) + payload
+
+
+def embedded_record_keys(n):
+    """database keys that EMBED a valid record whose payload is itself a well-formed index entry (key 'zz', offset 8): anything that finds
+    records in index.rio by scanning for markers meets a phantom entry inside the key"""
+    entry = b"\x0a\x02zz\x10\x08"
+    return [b"k%02d-" % i + embedded_record(entry) + b"-%d" % i for i in range(n)]
+
+
 KEY_FAMILIES = ["be4", "empty0", "prefix", "marker", "ascii", "nonutf8", "long", "biglast", "fix20"]
 
 
